@@ -152,8 +152,8 @@ class CONCATENATE:
 @contract('hotxlfp.formulas.text:TEXTJOIN', props=['C15'])
 class TEXTJOIN:
     args = dict(delimiter=SCALAR, ignore_empty=SCALAR)
-    cases = [dict(args=()), dict(args=TUPLE(STR | NONE_T)), dict(args=TUPLE(STR | NONE_T, STR | NONE_T)),
-             dict(args=TUPLE(STR | NONE_T, STR | NONE_T, STR | NONE_T))]
+    cases = [dict(args=()), dict(args=TUPLE(STR | NONE_T | ERR)), dict(args=TUPLE(STR | NONE_T | ERR, STR | NONE_T | ERR)),
+             dict(args=TUPLE(STR | NONE_T | ERR, STR | NONE_T | ERR, STR | NONE_T | ERR))]
 
     def pre(delimiter, ignore_empty, args):
         return not is_err(ignore_empty)
@@ -161,6 +161,9 @@ class TEXTJOIN:
     def spec(delimiter, ignore_empty, args):
         if not is_str(delimiter):
             return VALUE
+        for i in range(0, len(args)):
+            if is_err(args[i]):
+                return args[i]          # an error value among the items is the result (the first one), never text
         out = ''
         first = True
         for i in range(0, len(args)):
